@@ -216,6 +216,7 @@ def run_state(acc, cseed, platform, fw, nets, cmpf, Stack, SimDevice):
         if platform != "sgx":
             history(acc, rng, s, dev, fw, cmpf, case, netname != "invalid")
         if platform == "ledger" and netname != "invalid":
+            slow_answers(acc, rng, s, dev, fw, cmpf, case, hb, pubkeys, uihb)
             late_answers(acc, rng, s, dev, fw, cmpf, case, hb, pubkeys, uihb)
     # ---- uiHeartbeat over mode transitions (Ledger only: needs app switching)
     if platform != "ledger":
@@ -355,6 +356,61 @@ def history(acc, rng, s, dev, fw, cmpf, case, params_ok):
         acc.distinct.add("history|%s" % name)
 
 
+def slow_answers(acc, rng, s, dev, fw, cmpf, case, hb, pubkeys, uihb):
+    """a slow device: the answers to one command (or to all) take 1..9 s of virtual time -
+    inside the ten seconds the host allows every exchange.  Nothing is late, so every
+    reply that reports success carries that request's own data."""
+    dev.state = {"hashes": {hid: art(rng, 32) for hid in fw.values()}, "difficulty": 7,
+                 "flags": (0, 0, 0)}
+    secs = rng.choice([1.0, 2.5, 3.0, 4.5, 6.0, 8.0, 9.0])
+    which = rng.choice([0x43, 0x43, 0x06, 0x04, 0x20, 0x60, "*"])
+    s.bus.slow_cmds = {which: secs}
+    c2 = dict(case, slow_command=which, seconds=secs)
+    acc.count("slow_device_dialogues")
+    pa, pb = rng.sample(ALL_PATHS, 2)
+    reqs = [{"command": "uiHeartbeat", "version": 5, "udValue": rng.randbytes(32).hex()},
+            {"command": "getPubKey", "version": 5, "keyId": pa},
+            {"command": "blockchainState", "version": 5},
+            {"command": "signerHeartbeat", "version": 5, "udValue": rng.randbytes(16).hex()},
+            {"command": "getPubKey", "version": 5, "keyId": pb}]
+    if rng.random() < 0.5:
+        reqs = reqs[1:]
+    for request in reqs:
+        reply, exc, _ = s.request(request)
+        acc.evaluations += 1
+        acc.count("replies_judged_from_a_slow_device")
+        what = request["command"]
+        if exc is not None or not isinstance(reply, dict) or \
+                type(reply.get("errorcode")) is not int:
+            acc.violation("slow-answer:no-verdict:%s" % what, {"reply": reply,
+                                                                "exc": repr(exc)}, c2)
+            break
+        if reply["errorcode"] != 0:
+            continue
+        ok = True
+        if what == "getPubKey":
+            ok = reply.get("pubKey") == dev.pubkeys[path_to_binary(request["keyId"])].hex()
+        elif what in ("signerHeartbeat", "uiHeartbeat"):
+            h = hb if what == "signerHeartbeat" else uihb
+            sig = reply.get("signature") or {}
+            ok = (reply.get("pubKey") == h["pubkey"].hex() and
+                  reply.get("message") == h["message"].hex() and
+                  reply.get("tweak") == h["tweak"].hex() and
+                  int(sig.get("r", "0") or "0", 16) == int(h["rs"][0] or "0", 16) and
+                  int(sig.get("s", "0") or "0", 16) == int(h["rs"][1] or "0", 16))
+        elif what == "blockchainState":
+            st = reply.get("state", {})
+            for field, fwname in fwconst.STATE_FIELD_TO_FW.items():
+                node = st
+                for part in field.split("."):
+                    node = node.get(part) if isinstance(node, dict) else None
+                ok = ok and node == dev.state["hashes"][fw[fwname]].hex()
+        if not ok:
+            acc.violation("slow-answer:reply-0-with-data-of-another-exchange:%s" % what,
+                          {"reply": str(reply)[:300]}, c2)
+    s.bus.slow_cmds = None
+
+
 def late_answers(acc, rng, s, dev, fw, cmpf, case, hb, pubkeys, uihb):
     """one exchange is answered later than the host's time-out (the answer still arrives on
     the HID queue).  The request it belongs to may fail (-905) but may not report other
@@ -397,7 +453,7 @@ def late_answers(acc, rng, s, dev, fw, cmpf, case, hb, pubkeys, uihb):
         cmd = request["command"]
         ok = True
         if cmd == "getPubKey":
-            ok = reply.get("pubKey") == pubkeys[path_to_binary(request["keyId"])].hex()
+            ok = reply.get("pubKey") == dev.pubkeys[path_to_binary(request["keyId"])].hex()
         elif cmd in ("signerHeartbeat", "uiHeartbeat"):
             h = hb if cmd == "signerHeartbeat" else uihb
             sig = reply.get("signature") or {}
